@@ -51,21 +51,6 @@ theorem run_last_observation (c : Nat) (hist : List In) (i : In) :
 
 -- several connections, one database -----------------------------------------------------------------
 
-def proj (c : Nat) (h : List (Nat × In)) : List In := (h.filter (fun x => x.1 == c)).map (·.2)
-
-theorem conn_state_is_projection (g : Global) (h : List (Nat × In)) (c : Nat) :
-    (grun true g h).1.conns c = stAfter true c (g.conns c) (proj c h) := by
-  induction h generalizing g with
-  | nil => simp [grun, proj, stAfter]
-  | cons x xs ih =>
-    simp only [grun]
-    rw [ih]
-    by_cases hx : x.1 = c
-    · subst hx; simp [gstep, proj, stAfter]
-    · have : (x.1 == c) = false := by simp [hx]
-      have hc : ¬ c = x.1 := fun h => hx h.symm
-      simp [gstep, proj, stAfter, this, hc]
-
 /-- Interleaving any number of connections: each connection's controller state depends only on its own messages,
     and a step changes the shared store only if it is that connection's proved key exchange. -/
 theorem store_changes_only_by_proved_exchange (h : List (Nat × In)) (c : Nat) (i : In) :
